@@ -7,15 +7,82 @@ ORACLES = ["C08"]
 RULE = ("registries are tables value -> hits (kinds: context, case-changed context, decoding, decoding into a value that is searched again, "
         "with decoder-supplied children, restating the parent, empty value; a separate malformed stream with out-of-bounds / crossed spans); "
         "exhaustive over all sequences of <= 2 (quick) / <= 3 (thorough) hits x 4 kinds x all spans of a 4-byte text, then random tables of "
-        "up to 8 hits per text on up to 4 texts biased towards nesting / ties / straddling; depth in {-1,0,1,2,3,4,12}. "
+        "up to 8 hits per text on up to 4 texts biased towards nesting / ties / straddling; depth in {-1,0,1,2,3,4,12}; plus the SHIPPED registry on encoder stacks (height 1-3, also the same blob twice) with every decoded node re-scanned on its own by a fresh scanner. "
         "non-trivial = the resulting tree has at least two levels below the scanned node")
 TRUSTED_BASE = ["synthetic-registry harness (harness/engine_common.py)"]
 ASSUMPTIONS = ["the registry is a pure function value -> list of hits (Section variable search); theorems about trees built by the scan "
                "assume wf_search: every reported hit is non-empty and in bounds (the C06 precondition)"]
 
 
+def rescan_shipped(ctx):
+    """the property on the SHIPPED registry: every decoded node without decoder-supplied sub-structure has exactly the children that scanning a fresh node of the same type
+    and value with the remaining depth gives.  Trees are snapshotted right after each scan (hit objects must not be shared between scans)."""
+    import corpus_gen
+    import stacks
+    from common import node_val
+    from multidecoder.multidecoder import Multidecoder
+    from multidecoder.node import Node
+    from scan_common import RecordingRegistry
+    reg = RecordingRegistry()
+    md = Multidecoder(decoders=reg.decoders)
+    md2 = Multidecoder()
+    inputs = []
+    for p in stacks.PAYLOADS[:6]:
+        for l in stacks.LAYERS:
+            b = stacks.build(p, [l], b"first: ", b" end")
+            if b is not None and len(b[0]) < 3000:
+                inputs.append(b[0])
+                if len(inputs) % 7 == 0:
+                    inputs.append(b[0] + b" again: " + b[2])        # the same blob twice in one document
+    for _ in range(ctx.budget(60, 1200)):
+        h = ctx.rng.randint(1, 3)
+        inner = ctx.rng.choice(stacks.PAYLOADS[:6] + [corpus_gen.plain_nested(ctx.rng) for _ in range(3)])
+        b = stacks.build(inner, [ctx.rng.choice(stacks.LAYERS) for _ in range(h)], ctx.rng.choice(stacks.NEUTRAL_PRE), ctx.rng.choice(stacks.NEUTRAL_SUF))
+        if b is not None and len(b[0]) < 4000:
+            inputs.append(b[0])
+    ctx.rng.shuffle(inputs)
+    inputs = inputs[: ctx.budget(150, 2500)]
+    for data in inputs:
+        depth = ctx.rng.choice([10, 10, 3, 2])
+        del reg.calls[:]
+        tree = node_val(md.scan(data, depth))
+        ctx.evals += 1
+        supplied = {(h[0], h[1], h[2]) for _n, _v, hits in reg.calls for h in hits if h[5]}
+        bad = []
+
+        def check(k, r):
+            alone = node_val(md2.scan_node(Node(k[0], k[1], k[2], 0, 0), r))[5]
+            if k[5] != alone and not bad:
+                bad.append(f"decoded node {k[0]!r}/{k[2]!r} value {k[1][:50]!r}: its children differ from a scan of the same type and value on its own with remaining depth {r}: "
+                           f"{[(c[0], c[1][:20], c[3], c[4]) for c in k[5]][:4]} vs {[(c[0], c[1][:20], c[3], c[4]) for c in alone][:4]}")
+            elif k[5]:
+                ctx.nontrivial.add(("rescan", k[0], k[1][:40]))
+
+        def walk(n, r):          # n's value was searched by a scan_node call with depth r
+            for k in n[5]:
+                if k[5] and (k[0], k[1], k[2]) in supplied:
+                    for c in k[5]:
+                        scanned(c, r - 2)
+                elif k[1].lower() != n[1][k[3]:k[4]].lower():
+                    check(k, r - 1)
+                    walk(k, r - 1)
+                else:
+                    walk(k, r)
+
+        def scanned(c, r):       # c was handed to scan_node with depth r by the children loop
+            if c[5] and (c[0], c[1], c[2]) in supplied:
+                for cc in c[5]:
+                    scanned(cc, r - 1)
+            else:
+                walk(c, r)
+        walk(tree, depth)
+        if bad:
+            ctx.violation("rescan_shipped", [depth, data], bad[0])
+
+
 def run(ctx):
     run_engine(ctx, ORACLES)
+    rescan_shipped(ctx)
 
 
 def search(ctx):
